@@ -142,7 +142,7 @@ impl Profile {
             // names that differ only in letter case are different names for this server: one such
             // pair in each pool keeps case-folding on a single code path visible everywhere
             nicks: (0..8).map(|i| format!("n{}", i)).chain(std::iter::once("N0".to_string())).collect(),
-            chans: vec!["#c0".into(), "#c1".into(), "#c2".into(), "&l0".into(), "#Mixed".into(), "#mixed".into(), "#do.t".into()],
+            chans: vec!["#c0".into(), "#c1".into(), "#c2".into(), "&l0".into(), "#Mixed".into(), "#mixed".into(), "#do.t".into(), "#x".into()],
             max_conns: 6,
             oper_names: vec![],
             reg_passwords: vec![],
@@ -575,7 +575,9 @@ pub fn gen_op(m: &Model, p: &Profile, seed: &OpSeed) -> Option<Op> {
                     // (sent as a trailing parameter; sometimes with a blank added at one end: that is
                     // a different password)
                     let pw = p.reg_passwords[s.pick(p.reg_passwords.len())].clone();
-                    match s.pick(8) {
+                    match s.pick(9) {
+                        // (an empty password is a password too: it replaces an earlier one)
+                        8 => "PASS :".to_string(),
                         0 => format!("PASS :{} ", pw),
                         1 => format!("PASS : {}", pw),
                         2 | 3 => format!("PASS :{}", pw),
